@@ -233,6 +233,18 @@ private:
   SQUIDS_THREAD_LOCAL //one cache per thread if supported
   #endif
   detail::cache<mem_cache_entry,32> storage_cache[SQUIDS_MAX_HILBERT_DIM+1];
+  #ifdef SQUIDS_THREAD_LOCAL
+  ///Set once a thread has begun to end and has given back its cached blocks
+  static SQUIDS_THREAD_LOCAL bool storage_cache_closed;
+  ///Gives the blocks cached by a thread back when the thread ends
+  struct mem_cache_guard{
+    ~mem_cache_guard(){
+      storage_cache_closed=true; //blocks released from now on are deleted directly
+      SU_vector::clear_mem_cache();
+    }
+  };
+  static SQUIDS_THREAD_LOCAL mem_cache_guard storage_cache_guard;
+  #endif
 #endif
   
   ///A helper function which tries to put a memory block into the cache rather
@@ -240,7 +252,13 @@ private:
   void deallocate_mem(){
 #if SQUIDS_USE_STORAGE_CACHE
     bool cached=false;
-    if(((intptr_t)(components+dim%2))%32 == 0) //only try to save aligned storage
+    bool cache_open=true;
+  #ifdef SQUIDS_THREAD_LOCAL
+    cache_open=!storage_cache_closed;
+    if(cache_open)
+      (void)&storage_cache_guard; //make sure that this thread's guard exists, so that it runs when the thread ends
+  #endif
+    if(cache_open && ((intptr_t)(components+dim%2))%32 == 0) //only try to save aligned storage
       cached=storage_cache[dim].insert(mem_cache_entry{components,ptr_offset});
     if(!cached)
 #endif
